@@ -4,6 +4,7 @@ import (
 	"context"
 	"errors"
 	"math/rand"
+	"os"
 	"sync/atomic"
 	"testing"
 	"time"
@@ -294,6 +295,26 @@ func TestBatch(t *testing.T) {
 	w := newTraceWriter(envStr("VH_OUT", "/tmp/batch.ndjson"))
 	n, reps := envInt("VH_N", 50), envInt("VH_REPS", 3)
 	runs, leaks := 0, 0
+	if f := os.Getenv("VH_SCHED"); f != "" { // schedules generated by TLC from BatchEnv.tla: replayed literally
+		var scheds []struct {
+			Size, Maxwait int
+			Func          bool
+			Steps         []batchStep
+		}
+		readJSON(t, f, &scheds)
+		for _, s := range scheds {
+			for rep := 0; rep < reps; rep++ {
+				evs, leak, msg := runBatch(t, s.Size, s.Maxwait, s.Func, s.Steps)
+				if leak {
+					leaks++
+				}
+				writeRuns(w, &runs, evs, leak, msg, Ev{"size": s.Size, "maxwait": s.Maxwait, "func": s.Func})
+			}
+		}
+		w.close()
+		report(Ev{"engine": "bubble", "subject": "batch", "runs": runs, "events": w.n, "leaks": leaks, "source": "tlc-schedules"})
+		return
+	}
 	for _, d := range directedBatch() {
 		for rep := 0; rep < 8; rep++ { // which ready select arm wins is the runtime's choice: repeat
 			evs, leak, msg := runBatch(t, d.size, d.maxwait, d.fn, d.steps)
